@@ -346,6 +346,11 @@ def run(repo, check):
     from sa.rules import c07 as _c07
     _share(check, repo, _c07.rule_r3, 'C02.R12', 'values introduced by marker operators are written with the coding of the element the bitmap designates (shared with C07.R3)',
            args=(check.tier,))
+    from sa.rules import c13 as _c13, c05 as _c05
+    _share(check, repo, _c13.rule_r3, 'C02.R13', 'the encoder keeps nothing from one message to the next: every message is written from its own tables and template '
+           '(shared with C13.R3)', keep=lambda f: 'Encoder' in f.key or 'Coder.' in f.key)
+    _share(check, repo, _c05.rule_state_mode, 'C02.R14', 'the data section is written in the layout the header declares, whatever the number of subsets (shared with C05.R8)',
+           args=('C02.R14',), keep=lambda f: 'Encoder' in f.key)
     check.assumptions = ['bitstring writes an n-bit unsigned field MSB first and refuses values that do not fit (trusted base)',
                          'byte identity with an independent encoder is a runtime fact and is not decided; the rules decide that the encoder '
                          'and the decoder agree on every field sequence and that the arithmetic is the FM-94 one']
